@@ -78,7 +78,21 @@ impl Cb {
     }
 }
 
-pub type CbLog = Arc<Mutex<Vec<Cb>>>;
+/// callback log: (observation order, callback)
+#[derive(Default)]
+pub struct CbLogInner {
+    pub v: Vec<Cb>,
+    pub ord: Vec<u64>,
+}
+
+impl CbLogInner {
+    pub fn push(&mut self, cb: Cb) {
+        self.ord.push(dnp3::verif::pipe::next_order());
+        self.v.push(cb);
+    }
+}
+
+pub type CbLog = Arc<Mutex<CbLogInner>>;
 
 /// application behaviour, switchable by the driver
 #[derive(Clone, Debug)]
@@ -427,7 +441,7 @@ impl OCfg {
 #[derive(Clone, Debug, PartialEq, Eq, Hash)]
 pub enum Tx {
     /// a reassembled application fragment
-    Frag { t: u64, dst: u16, src: u16, data: Vec<u8> },
+    Frag { t: u64, ord: u64, dst: u16, src: u16, data: Vec<u8> },
     /// a link-only frame (ACK, LINK_STATUS, REQUEST_LINK_STATUS ...)
     Link { t: u64, frame: LinkFrame },
     /// bytes that the reference framer could not decode
@@ -461,6 +475,7 @@ pub struct OSim {
     pub tseq: u8,
     actor: usize,
     pub sessions: usize,
+    last_ord: u64,
 }
 
 impl OSim {
@@ -495,6 +510,7 @@ impl OSim {
             tseq: 0,
             actor,
             sessions: 0,
+            last_ord: 0,
         };
         s.connect(cfg.datagram);
         s
@@ -532,12 +548,21 @@ impl OSim {
 
     fn drain_pipe(&mut self) {
         let t = self.k.now_ms();
-        if let Some(p) = &self.pipe {
-            for w in p.take_tx() {
-                self.raw_out.extend_from_slice(&w);
-                self.stream.extend_from_slice(&w);
-            }
+        let writes = match &self.pipe {
+            Some(p) => p.take_tx(),
+            None => Vec::new(),
+        };
+        // one write at a time so that every decoded frame gets the order of the write that
+        // completed it
+        for (ord, w) in writes {
+            self.raw_out.extend_from_slice(&w);
+            self.stream.extend_from_slice(&w);
+            self.last_ord = ord;
+            self.decode_stream(t);
         }
+    }
+
+    fn decode_stream(&mut self, t: u64) {
         if self.stream.is_empty() {
             return;
         }
@@ -556,7 +581,7 @@ impl OSim {
             if is_data {
                 let seg = Segment { src: f.src, dst: f.dst, broadcast: false, data: f.payload.clone() };
                 if let Some(d) = self.reasm.push(&seg) {
-                    self.out.push(Tx::Frag { t, dst: d.dst, src: d.src, data: d.data });
+                    self.out.push(Tx::Frag { t, ord: self.last_ord, dst: d.dst, src: d.src, data: d.data });
                 }
             } else {
                 self.out.push(Tx::Link { t, frame: f });
@@ -639,7 +664,15 @@ impl OSim {
     }
 
     pub fn take_cb(&mut self) -> Vec<Cb> {
-        std::mem::take(&mut *self.cb.lock().unwrap())
+        let mut g = self.cb.lock().unwrap();
+        g.ord.clear();
+        std::mem::take(&mut g.v)
+    }
+
+    /// callbacks with their observation order
+    pub fn take_cb_ordered(&mut self) -> (Vec<Cb>, Vec<u64>) {
+        let mut g = self.cb.lock().unwrap();
+        (std::mem::take(&mut g.v), std::mem::take(&mut g.ord))
     }
 
     pub fn session_log(&self) -> Vec<String> {
